@@ -292,7 +292,7 @@ def run(ix, R):
             ok5 = rat is not None and rat.head == 'tuple' and len(rat.args) == 2
             if ok5:
                 a0 = atom_of(fl, rat.args[0])
-                ok5 = a0 is not None and a0.head == 'item' and \
+                ok5 = a0 is not None and a0.head == 'idx' and \
                     a0.args[1].const() == 0 and \
                     atom_of(fl, a0.args[0]) is not None and \
                     atom_of(fl, a0.args[0]).extra[0] == 'fn:self.compute_absorption'
